@@ -31,7 +31,7 @@ macro_rules! dd2 {
         crate::proof!{ #[kani::unwind($unw)] fn [<c02_ $tier _gend_ $n _r>]() { $($f)*::<{D_R}, {C02}>() } }
     }};
 }
-dd2!(q, union_b, 5, u::union_b);
+dd2!(t, union_b, 5, u::union_b);
 dd2!(t, union_c, 5, u::union_c);
 // compact protocol, emitted Inner
 crate::proof!{ #[kani::unwind(7)] fn c02_t_gend_inner_compact_w() { u::inner_compact_w::<{C02}>() } }
